@@ -64,13 +64,15 @@ def _listing_case(draw):
 @st.composite
 def _resolve_case(draw):
     full = draw(st.booleans())
-    return {"mode": "resolve", "full": full, "site": draw(sites.site(full=full, depth=2, max_items=4)),
+    return {"mode": "resolve", "full": full, "site": draw(sites.site(full=full, depth=2, max_items=4, longnames=draw(st.sampled_from([False, False, True])))),
             "pick": draw(st.integers(0, 50)), "slash": draw(st.booleans())}
 
 
 _SEARCH_OK = [c for c in range(1, 256) if c not in (9, 10, 13)]
 search_st = st.one_of(
     st.lists(st.sampled_from([chr(c) for c in _SEARCH_OK]), min_size=1, max_size=12).map("".join),
+    # long search strings: 300 - 3000 bytes, plain and of bytes that travel percent-encoded
+    st.builds(lambda u, n: (u * n)[:3000], st.sampled_from(["a", "\xe9", "\xc3\xa9", "q r ", "%", "\xe4\xb8\xad"]), st.sampled_from([300, 400, 1100, 3000])),
     st.lists(st.sampled_from(list("ab +&=%?#;/\\:@\"'<>")) | st.sampled_from(["\xff", "\xc3\xa9", "\xc3", "%41", "%ff", "+", "&amp;"]),
              min_size=1, max_size=8).map("".join),
 ).filter(lambda s: s == s.strip() and s.encode("latin-1").decode("utf-8", "surrogateescape").strip()
